@@ -36,9 +36,13 @@ type sctx struct {
 	b     []byte
 	s     string
 	hx    string
+	as    string // attribute failures to this property (C10 re-uses the C01-C04 comparisons in longest mode)
 }
 
 func (c *sctx) fail(prop, api, args, want, got string) {
+	if c.as != "" {
+		prop = c.as
+	}
 	c.rep.Fail(&core.Failure{Prop: prop, API: api, Mode: c.mode, Pattern: c.pat, Hay: c.hx, Args: args,
 		Want: want, Got: got, Strat: c.strat, Fam: c.fam})
 }
@@ -731,22 +735,23 @@ func runSearch(args []string) {
 			}
 			if pset["C10"] && okL {
 				cl := *c
-				cl.cg, cl.mode = cgL, "longest"
+				cl.cg, cl.mode, cl.as = cgL, "longest", "C10"
 				calls += cl.c01(firstL != nil, hi)
 				calls += cl.c02(sp2(firstL))
 				calls += cl.c03(firstL)
 				calls += cl.c04(h.AL)
 				// default mode on the twin value must be unaffected by Longest() on cgL
 				if okF {
-					c.mode = "first"
-					calls += c.c02(sp2(first))
+					cf := *c
+					cf.mode, cf.as = "first", "C10"
+					calls += cf.c02(sp2(first))
 				}
 				if posixOK {
 					wantP := stdP.FindAllSubmatchIndex(b, -1)
 					// the reference in longest mode must explain regexp's POSIX result too
 					if eqAll(wantP, h.AL) {
 						cp := *c
-						cp.cg, cp.mode, cp.pat = cgP, "posix", posixPat
+						cp.cg, cp.mode, cp.pat, cp.as = cgP, "posix", posixPat, "C10"
 						var fp []int
 						if len(h.AL) > 0 {
 							fp = h.AL[0]
